@@ -241,8 +241,13 @@ impl StreamFlowController {
             return;
         }
 
+        // Connection credits beyond the stream's own limit can't be used by this stream.
+        // Since the acquired window is reported as the final size when the stream is reset,
+        // acquiring more than `max_stream_data` would also announce a final size that
+        // exceeds the limit set by the peer.
         let missing_connection_window = self
             .highest_requested_connection_flow_control_window
+            .min(self.max_stream_data)
             .saturating_sub(self.acquired_connection_flow_controller_window);
 
         if missing_connection_window > VarInt::from_u32(0) {
@@ -387,7 +392,7 @@ impl OutgoingDataFlowController for StreamFlowController {
         );
         self.try_acquire_connection_window();
 
-        if end_offset > self.acquired_connection_flow_controller_window {
+        if end_offset.min(self.max_stream_data) > self.acquired_connection_flow_controller_window {
             // Can't send due to being blocked on the connection flow control window
             self.state = StreamFlowControllerState::BlockedOnConnectionWindow;
         }
